@@ -55,15 +55,19 @@ Definition subclass_radd (b a : cls) : bool :=
   | _, _ => false
   end.
 
-(* Variant switches (DESIGN 2.5): behaviours of /repo that are recorded findings.  The harness
-   measures which variant the current code exhibits and passes it to the correspondence; the
-   theorems are proved for every variant, the full flag statement for the repaired one. *)
+(* Variant switches (DESIGN 2.5) for two findings that were repaired in /repo (7ebf769,
+   c9dadbb).  [variant_live] is what /repo does now and is THE model: the correspondence
+   requires the running code to exhibit it (Corr.vt_is_live), the property theorems of
+   Props.v are stated at it.  [variant_old] is kept only so that the old defects stay
+   expressible (refutations in C04/Refuted.v); the lemmas are proved for every variant. *)
 Record variant := {
   v_frvec_lin : bool;     (* FunctionalRightVectorMult keeps is_linear of its operand *)
-  v_vecsum_field : bool   (* OperatorVectorSum accepts an operator whose range is the field *)
+  v_vecsum_field : bool;  (* OperatorVectorSum accepts an operator whose range is the field *)
+  v_real_shortcut : bool  (* Operator.__mul__ rewrites A*a to a*A only for isinstance(a, Real) (open finding:
+                             currently false = also for complex a) *)
 }.
-Definition variant_current : variant := {| v_frvec_lin := false; v_vecsum_field := false |}.
-Definition variant_repaired : variant := {| v_frvec_lin := true; v_vecsum_field := true |}.
+Definition variant_old : variant := {| v_frvec_lin := false; v_vecsum_field := false; v_real_shortcut := false |}.
+Definition variant_live : variant := {| v_frvec_lin := true; v_vecsum_field := true; v_real_shortcut := false |}.
 
 Section Model.
 Context {T : Type} `{Num T}.
@@ -229,13 +233,14 @@ Definition rmul_c (a : oexpr) (c : T) : res oexpr :=
   else mkLScal false a c.
 
 (* A * c : A.__mul__(c)   (Functional.__mul__ | OperatorRightScalarMult.__mul__ | Operator.__mul__) *)
-Definition mul_c (a : oexpr) (c : T) : res oexpr :=
+(* [rl]: isinstance(c, numbers.Real) -- the Python TYPE of the scalar literal *)
+Definition mul_c (a : oexpr) (c : T) (rl : bool) : res oexpr :=
   if ofunc a then
     if c =? nzero then Ok (OConst (odom a) (scalar_of (eval a (vzero (dim (odom a))))))
     else if olin a then mkFLScal a c else mkFRScal a c
   else match a with
        | ORScal _ a' c' => mkRScal false a' (c' * c)
-       | _ => if olin a then rmul_c a c else mkRScal false a c
+       | _ => if olin a && (rl || negb (v_real_shortcut vt)) then rmul_c a c else mkRScal false a c
        end.
 
 (* A * v *)
@@ -299,9 +304,9 @@ Inductive sexpr :=
 | SCAdd (c : T) (a : sexpr)        (* c + A *)
 | SSubC (a : sexpr) (c : T)        (* A - c *)
 | SCSub (c : T) (a : sexpr)        (* c - A *)
-| SMulC (a : sexpr) (c : T)        (* A * c *)
+| SMulC (a : sexpr) (c : T) (rl : bool)   (* A * c;  rl = isinstance(c, Real) *)
 | SCMul (c : T) (a : sexpr)        (* c * A *)
-| SDivC (a : sexpr) (c : T)        (* A / c *)
+| SDivC (a : sexpr) (c : T) (rl : bool)   (* A / c *)
 | SPtw (a b : sexpr).              (* OperatorPointwiseProduct(A, B), the class called directly *)
 
 Fixpoint build (s : sexpr) : res oexpr :=
@@ -324,10 +329,10 @@ Fixpoint build (s : sexpr) : res oexpr :=
   | SAddC a c | SCAdd c a => bind (build a) (fun oa => add_c oa c)
   | SSubC a c => bind (build a) (fun oa => add_c oa (neg1 * c))
   | SCSub c a => bind (build a) (fun oa => bind (rmul_c oa neg1) (fun na => add_c na c))
-  | SMulC a c => bind (build a) (fun oa => mul_c oa c)
+  | SMulC a c rl => bind (build a) (fun oa => mul_c oa c rl)
   | SCMul c a => bind (build a) (fun oa => rmul_c oa c)
-  | SDivC a c => bind (build a) (fun oa =>
-      if c =? nzero then Err ZeroDivErr else mul_c oa (none_ / c))   (* self * (1.0 / other) *)
+  | SDivC a c rl => bind (build a) (fun oa =>
+      if c =? nzero then Err ZeroDivErr else mul_c oa (none_ / c) rl)   (* self * (1.0 / other) *)
   | SPtw a b => bind (build a) (fun oa => bind (build b) (fun ob => mkPtw oa ob))
   end.
 
@@ -338,8 +343,8 @@ Fixpoint sran (s : sexpr) : sp :=
   | SLeaf l => l_ran l
   | SConst _ _ | SZero _ => SF
   | SAdd a _ | SSub a _ | SMul a _ | SNeg a | SPow a _ | SAddV a _ | SVAdd _ a | SSubV a _
-  | SVSub _ a | SMulV a _ | SAddC a _ | SCAdd _ a | SSubC a _ | SCSub _ a | SMulC a _
-  | SCMul _ a | SDivC a _ | SPtw a _ => sran a
+  | SVSub _ a | SMulV a _ | SAddC a _ | SCAdd _ a | SSubC a _ | SCSub _ a | SMulC a _ _
+  | SCMul _ a | SDivC a _ _ | SPtw a _ => sran a
   | SVMul v a => match sran a with SF => SV (length v) | r => r end
   end.
 
@@ -367,9 +372,9 @@ Fixpoint denote (s : sexpr) (x : vec) : vec :=
   | SAddC a c | SCAdd c a => map (fun u => u + c) (denote a x)   (* A(x) + c*one *)
   | SSubC a c => map (fun u => u - c) (denote a x)
   | SCSub c a => map (fun u => c - u) (denote a x)
-  | SMulC a c => denote a (vscal c x)                            (* (A*a)(x) = A(a*x) *)
+  | SMulC a c _ => denote a (vscal c x)                            (* (A*a)(x) = A(a*x) *)
   | SCMul c a => vscal c (denote a x)                            (* (a*A)(x) = a*A(x) *)
-  | SDivC a c => denote a (map (fun u => u / c) x)               (* (A/a)(x) = A(x/a) *)
+  | SDivC a c _ => denote a (map (fun u => u / c) x)               (* (A/a)(x) = A(x/a) *)
   | SPtw a b => vmul (denote a x) (denote b x)
   end.
 
@@ -380,7 +385,7 @@ Fixpoint slin (s : sexpr) : bool :=
   | SConst _ c => c =? nzero
   | SZero _ => true
   | SAdd a b | SSub a b | SMul a b => slin a && slin b
-  | SNeg a | SPow a _ | SMulV a _ | SVMul _ a | SMulC a _ | SCMul _ a | SDivC a _ => slin a
+  | SNeg a | SPow a _ | SMulV a _ | SVMul _ a | SMulC a _ _ | SCMul _ a | SDivC a _ _ => slin a
   | SAddV _ _ | SVAdd _ _ | SSubV _ _ | SVSub _ _ | SAddC _ _ | SCAdd _ _ | SSubC _ _
   | SCSub _ _ | SPtw _ _ => false
   end.
@@ -392,8 +397,8 @@ Fixpoint sdom (s : sexpr) : sp :=
   | SConst d _ | SZero d => d
   | SMul _ b => sdom b
   | SAdd a _ | SSub a _ | SNeg a | SPow a _ | SAddV a _ | SVAdd _ a | SSubV a _
-  | SVSub _ a | SMulV a _ | SVMul _ a | SAddC a _ | SCAdd _ a | SSubC a _ | SCSub _ a | SMulC a _
-  | SCMul _ a | SDivC a _ | SPtw a _ => sdom a
+  | SVSub _ a | SMulV a _ | SVMul _ a | SAddC a _ | SCAdd _ a | SSubC a _ | SCSub _ a | SMulC a _ _
+  | SCMul _ a | SDivC a _ _ | SPtw a _ => sdom a
   end.
 
 (* ---- well-typedness by the DOCUMENTED rules (docstrings of the overloads), and whether the
@@ -405,7 +410,7 @@ Fixpoint sfunc (s : sexpr) : bool :=
   | SAdd a b | SSub a b => sfunc a && sfunc b
   | SPow a n => sfunc a && (n =? 1)%Z
   | SMul a _ | SNeg a | SMulV a _ | SAddC a _ | SCAdd _ a | SSubC a _ | SCSub _ a
-  | SMulC a _ | SCMul _ a | SDivC a _ => sfunc a
+  | SMulC a _ _ | SCMul _ a | SDivC a _ _ => sfunc a
   | SAddV _ _ | SVAdd _ _ | SSubV _ _ | SVSub _ _ | SVMul _ _ | SPtw _ _ => false
   end.
 
@@ -415,12 +420,12 @@ Fixpoint wt (s : sexpr) : bool :=
   | SAdd a b | SSub a b | SPtw a b =>
       wt a && wt b && sp_eqb (sran a) (sran b) && sp_eqb (sdom a) (sdom b)
   | SMul a b => wt a && wt b && sp_eqb (sran b) (sdom a)          (* right.range == left.domain *)
-  | SNeg a | SAddC a _ | SCAdd _ a | SSubC a _ | SCSub _ a | SMulC a _ | SCMul _ a => wt a
+  | SNeg a | SAddC a _ | SCAdd _ a | SSubC a _ | SCSub _ a | SMulC a _ _ | SCMul _ a => wt a
   | SPow a n => wt a && (0 <? n)%Z && ((n =? 1)%Z || sp_eqb (sran a) (sdom a))
   | SAddV a v | SVAdd v a | SSubV a v | SVSub v a => wt a && in_sp v (sran a)   (* v in A.range *)
   | SMulV a v => wt a && in_sp v (sdom a)                                       (* v in A.domain *)
   | SVMul v a => wt a && (in_sp v (sran a) || sp_eqb (sran a) SF)
-  | SDivC a c => wt a && negb (c =? nzero)
+  | SDivC a c _ => wt a && negb (c =? nzero)
   end.
 
 (* scalar additions whose operand is a field-valued operator that is NOT a Functional
@@ -432,7 +437,7 @@ Fixpoint scalar_add_ok (s : sexpr) : Prop :=
   | SAddC a _ | SCAdd _ a | SSubC a _ | SCSub _ a =>
       (v_vecsum_field vt = true \/ sfunc a = true \/ sran a <> SF) /\ scalar_add_ok a
   | SNeg a | SPow a _ | SAddV a _ | SVAdd _ a | SSubV a _ | SVSub _ a | SMulV a _ | SVMul _ a
-  | SMulC a _ | SCMul _ a | SDivC a _ => scalar_add_ok a
+  | SMulC a _ _ | SCMul _ a | SDivC a _ _ => scalar_add_ok a
   end.
 
 (* ------------------------------------------------- concrete leaves (the pool) *)
